@@ -45,6 +45,8 @@ pub enum Op {
     Truncate { b: usize },
     /// one freezer pass
     Freeze,
+    /// one pass of the block-filter builder (it may lag behind the chain by any number of blocks and reorgs)
+    FilterBuild,
 }
 
 #[derive(Clone, Debug, Serialize, Deserialize)]
@@ -447,6 +449,21 @@ pub fn generate(seed: u64, prop: &str) -> Scenario {
         ops.push(Op::Drain);
         ops.push(Op::Freeze);
         for _ in 0..r.urange(0, 2) {
+            let at = r.idx(ops.len() + 1);
+            ops.insert(at, Op::Restart);
+        }
+    }
+    if prop == "C19" {
+        // the filter builder runs at arbitrary moments, lagging behind by blocks and reorganisations;
+        // some runs restart in between (the builder resumes from the stored "latest built" mark)
+        let k = r.urange(1, 8);
+        for _ in 0..k {
+            let at = r.idx(ops.len() + 1);
+            ops.insert(at, Op::FilterBuild);
+        }
+        ops.push(Op::Drain);
+        ops.push(Op::FilterBuild);
+        if r.chance(1, 3) {
             let at = r.idx(ops.len() + 1);
             ops.insert(at, Op::Restart);
         }
